@@ -364,7 +364,8 @@ public:
     emitOp("Mul", p, {a, b}, {o}, res);
   }
 
-  // variant: 0 conformable, 1 A/B inner dimension off, 2 an imaginary part of another shape
+  // variant: 0 conformable, 1 A/B inner dimension off, 2 an imaginary part of another shape,
+  // 3 both imaginary parts of another shape, consistent with each other
   void opMulC(int variant)
   {
     std::string cl = classesFor("MulC", 6);
@@ -382,6 +383,20 @@ public:
       std::pair<size_t, size_t> s(n2 == 0 ? 1 : (rng.coin() ? n2 : other(n2)), c == 0 ? 1 : other(c));
       ia = need(cl[1], r, n, kb);
       ib = need(cl[3], s.first, s.second, kb);
+    }
+    else if (variant == 3)
+    { // BOTH imaginary parts wrong, but consistent with each other: another inner dimension, or another outer shape
+      if (rng.coin())
+      {
+        size_t m = n == 0 ? 1 + rng.below(2) : other(n);
+        ia = need(cl[1], r == 0 ? 1 : r, m, kb);
+        ib = need(cl[3], m, c == 0 ? 1 : c, kb);
+      }
+      else
+      {
+        ia = need(cl[1], r == 0 ? 1 : other(r), n == 0 ? 1 : n, kb);
+        ib = need(cl[3], n2 == 0 ? 1 : n2, c == 0 ? 1 : other(c), kb);
+      }
     }
     else
     {
@@ -407,6 +422,7 @@ public:
     productShapes(variant != 1, r, n, n2, c);
     int a = need(cl[0], r, n, kb), b = need(cl[1], n2, c, kb);
     std::vector<S> d = vec(variant == 2 ? (n == 0 ? 1 : other(n)) : n, kb);
+    if (variant == 1 && rng.coin()) d = vec(n2, kb); // the vector agrees with B instead of A: two operands wrong together
     if (n * maxAbsNum(a) * maxAbsNum(b) * 4 > LIMIT) { ++skipped; return; }
     int o = output(cl[2], {a, b}, r, c);
     std::string res = outcome<bpp::Exception>([&]() { bpp::MatrixTools::mult(M(a), d, M(b), M(o)); });
@@ -441,6 +457,27 @@ public:
     bool which = rng.coin();
     std::vector<S> d = vec(variant == 2 && which ? (n == 0 ? 1 : other(n)) : n, kb);
     std::vector<S> id = vec(variant == 2 && !which ? (n == 0 ? 1 : other(n)) : n, kb);
+    if (variant == 4)
+    { // several operands wrong together, consistently: the whole imaginary triple (iA, iD, iB) on another inner
+      // dimension, or both vectors of the same wrong length
+      size_t m = n == 0 ? 1 + rng.below(2) : other(n);
+      if (which)
+      {
+        ia = need(cl[1], r == 0 ? 1 : r, m, kb);
+        ib = need(cl[3], m, c == 0 ? 1 : c, kb);
+        id = vec(m, kb);
+      }
+      else
+      {
+        d = vec(m, kb);
+        id = vec(m, kb);
+      }
+    }
+    if (variant == 1 && which)
+    { // vectors agree with B's height instead of A's width
+      d = vec(n2, kb);
+      id = vec(n2, kb);
+    }
     double ma = std::max(maxAbsNum(a), maxAbsNum(ia)), mb = std::max(maxAbsNum(b), maxAbsNum(ib));
     if (4 * n * ma * mb * 4 > LIMIT) { ++skipped; return; }
     int o = output(cl[4], {a, ia, b, ib}, r, c);
@@ -470,6 +507,8 @@ public:
       default: ll = rng.coin() ? n : (n >= 2 ? n - 2 : n + 1); break;
       }
     }
+    if (variant == 1 && n2 >= 1 && rng.coin()) { ld = n2; lu = ll = n2 - 1; } // the band agrees with B instead of A
+    else if (variant == 2 && rng.chance(1, 3)) { ld = n + 1; lu = ll = n; }        // all three vectors one too long, consistently
     std::vector<S> d = vec(ld, kb), u = vec(lu, kb), l = vec(ll, kb);
     if (3 * n * maxAbsNum(a) * maxAbsNum(b) * 4 > LIMIT) { ++skipped; return; }
     int o = output(cl[2], {a, b}, r, c);
@@ -693,6 +732,7 @@ public:
       if (rng.coin()) sia = differ(sa);
       else sib = differ(sa);
     }
+    if (variant == 3) sib = sia = differ(sa); // both imaginary parts wrong in the same way
     int a = need(cl[0], sa.first, sa.second, kb, 1000), ia = need(cl[1], sia.first, sia.second, kb, 1000);
     int b = need(cl[2], sb.first, sb.second, kb, 1000), ib = need(cl[3], sib.first, sib.second, kb, 1000);
     int o = output(cl[4], {a, ia, b, ib}, sa.first, sa.second);
@@ -853,9 +893,9 @@ public:
     size_t r = rng.below(100);
     bool conf = !rng.chance(1, 4);
     if (r < 9) opMul(conf);
-    else if (r < 15) opMulC(conf ? 0 : 1 + static_cast<int>(rng.below(2)));
+    else if (r < 15) opMulC(conf ? 0 : 1 + static_cast<int>(rng.below(3)));
     else if (r < 21) opMulDiag(conf ? 0 : 1 + static_cast<int>(rng.below(2)));
-    else if (r < 26) opMulDiagC(conf ? 0 : 1 + static_cast<int>(rng.below(3)));
+    else if (r < 26) opMulDiagC(conf ? 0 : 1 + static_cast<int>(rng.below(4)));
     else if (r < 33) opMulTri(conf ? 0 : 1 + static_cast<int>(rng.below(2)));
     else if (r < 38) opAdd(conf ? (rng.chance(1, 5) ? 3 : 0) : 1 + static_cast<int>(rng.below(2)), false);
     else if (r < 43) opAdd(conf ? (rng.chance(1, 5) ? 3 : 0) : 1 + static_cast<int>(rng.below(2)), true);
@@ -867,7 +907,7 @@ public:
     else if (r < 69) opKron(1);
     else if (r < 73) opKron(2);
     else if (r < 77) opHad(conf);
-    else if (r < 81) opHadC(conf ? 0 : 1 + static_cast<int>(rng.below(2)));
+    else if (r < 81) opHadC(conf ? 0 : 1 + static_cast<int>(rng.below(3)));
     else if (r < 85) opHadVec(conf);
     else if (r < 91) opDSum();
     else if (r < 94) opDSumN();
